@@ -6,6 +6,10 @@ and all claimed checks must still exit 0 (known findings allowed).
   rename-locals   every function-local variable gets the suffix `_v`
   add-logging     a `_logger.debug(...)`-style no-op statement at the start of every function
   shift-lines     20 blank lines at the top of every module
+  flip-compare    a < b -> b > a (all single-operator comparisons)
+  invert-if       if c: A else: B -> if not c: B else: A
+  split-and       if a and b: X -> if a: if b: X
+  drop-else-after-return   if c: ...return else: B -> if c: ...return; B
 
 Usage: /venv/bin/python selftest/benign_transforms.py [name ...] [--keep]
 """
@@ -174,7 +178,60 @@ def flip_compare(tree):
     return tree
 
 
+class _SplitAnd(ast.NodeTransformer):
+    """`if a and b: X` (no else) -> `if a:\n    if b: X`."""
+
+    def visit_If(self, n):
+        self.generic_visit(n)
+        if not n.orelse and isinstance(n.test, ast.BoolOp) and isinstance(n.test.op, ast.And) and len(n.test.values) == 2:
+            a, b = n.test.values
+            inner = ast.If(test=b, body=n.body, orelse=[])
+            return ast.copy_location(ast.If(test=a, body=[inner], orelse=[]), n)
+        return n
+
+
+def split_and(tree):
+    tree = _SplitAnd().visit(tree)
+    ast.fix_missing_locations(tree)
+    return tree
+
+
+class _DropElseAfterReturn(ast.NodeTransformer):
+    """`if c: ...; return/raise/continue/break  else: B` -> `if c: ...; return` followed by B (same block)."""
+
+    def _fix(self, body):
+        out = []
+        for st in body:
+            if isinstance(st, ast.If) and st.orelse and st.body and isinstance(st.body[-1], (ast.Return, ast.Raise, ast.Continue, ast.Break)) \
+                    and not (len(st.orelse) == 1 and isinstance(st.orelse[0], ast.If)):
+                rest = st.orelse
+                st.orelse = []
+                out.append(st)
+                out.extend(rest)
+            else:
+                out.append(st)
+        return out
+
+    def generic_visit(self, node):
+        super().generic_visit(node)
+        for fld in ('body', 'orelse', 'finalbody'):
+            b = getattr(node, fld, None)
+            if isinstance(b, list) and b and isinstance(b[0], ast.stmt):
+                setattr(node, fld, self._fix(b))
+        return node
+
+
+def drop_else_after_return(tree):
+    tree = _DropElseAfterReturn().visit(tree)
+    ast.fix_missing_locations(tree)
+    return tree
+
+
+TRANSFORMS_EXTRA = {'split-and': split_and, 'drop-else-after-return': drop_else_after_return}
+
+
 TRANSFORMS = {'invert-if': invert_if, 'flip-compare': flip_compare, 'reformat': reformat, 'rename-locals': rename_locals, 'add-logging': add_logging, 'shift-lines': shift_lines}
+TRANSFORMS.update(TRANSFORMS_EXTRA)
 
 
 def run(name, keep=False, only=None, results=None):
